@@ -1,6 +1,6 @@
 """C05, C07, C08, C09, C10, C11 share one shape: a family over the property's object kinds, the
 decision replay on the twin, and the reference interleaving semantics as the oracle."""
-from gen import families
+from gen import families, corpus
 
 RULES = {
     "C05": ("lock-order inversions, lost notifications, recv without send, park without unpark, each with its "
@@ -31,7 +31,7 @@ def relevant(pid, failure):
 def run_for(ctx, fam):
     ctx.prove(ctx.theorems())
     ctx.build_harness()
-    programs = fam(ctx.seed, ctx.quick)
+    programs = list(dict.fromkeys(corpus.corpus(ctx.pid) + fam(ctx.seed, ctx.quick)))
     ctx.assumptions.append("Spec/SC.lean (interleaving semantics of the DSL) is trusted as the meaning of the "
                            "primitives; Oracle/SCEnum.lean enumerates it (memoised; capped programs are skipped and "
                            "counted)")
